@@ -14,7 +14,7 @@
 using namespace verif;
 
 int main(int argc, char **argv) {
-    std::string genName, cfgText, outPath, markerPath, dumpPath;
+    std::string genName, cfgText, outPath, markerPath, dumpPath, trailPath;
     size_t nSamples = 4;
     for (int i = 1; i < argc; ++i) {
         std::string a = argv[i];
@@ -24,6 +24,7 @@ int main(int argc, char **argv) {
         else if (a == "--out") outPath = next();
         else if (a == "--marker") markerPath = next();
         else if (a == "--dump") dumpPath = next();
+        else if (a == "--trail") trailPath = next();
         else if (a == "--samples") nSamples = (size_t)std::atoi(next().c_str());
     }
     if (genName.empty() || outPath.empty()) {
@@ -40,11 +41,19 @@ int main(int argc, char **argv) {
     Marker marker(markerPath);
     rc::Gen<Case> g = makeGen(genName, cfg);
     FILE *dump = dumpPath.empty() ? nullptr : std::fopen(dumpPath.c_str(), "w");
+    // --trail: every case up to and including the first failing one, in execution order (a failure that depends on what the
+    // process executed before is reproduced from this file by the replay front-end)
+    FILE *trail = trailPath.empty() ? nullptr : std::fopen(trailPath.c_str(), "w");
+    bool trailOpen = trail != nullptr;
 
     bool ok = rc::check(genName + " [" + verif_executor_name() + "]", [&]() {
         Case c = *g;
         std::string text = c.text();
         marker.set(text);
+        if (trailOpen) {
+            std::fprintf(trail, "%s%%%%%%%% next case\n", text.c_str());
+            std::fflush(trail);
+        }
         static verif_result r;
         verif_run_case(text.data(), text.size(), &r);
         st.record(text, r);
@@ -52,10 +61,14 @@ int main(int argc, char **argv) {
             std::fprintf(dump, "{\"digest\": \"%llu\", \"verdict\": %d, \"text\": \"%s\"}\n", r.digest, r.verdict, jsonEscape(text).c_str());
         marker.clear();
         if (r.verdict == 1)
+            trailOpen = false;
+        if (r.verdict == 1)
             RC_FAIL(std::string(r.message));
     });
     if (dump)
         std::fclose(dump);
+    if (trail)
+        std::fclose(trail);
     st.finished = true;
     st.passed = ok;
     st.write(outPath);
